@@ -34,6 +34,14 @@ def U(**k):
     if u["id"] in THOROUGH or u["id"].endswith(".distance"):
         u["tier"] = "thorough"
     u["assumes"] = [A_STEP, A_GC, A_PANIC] + k.get("assumes", [])
+    # the same instruction contracts are what C14 ("operators on ordinary numbers equal IEEE-754 double arithmetic ... 32-bit
+    # bitwise operators equal two's-complement results") and C03 (the ordering operators agree with compare) state
+    import re as _re
+    i = u["id"]
+    if _re.match(r"vm\.op\.(add|sub|mul|div|divf|mod|rem|band|bor|bxor|bnot|shl|shr|shru)(\.imm)?$", i):
+        u["props"] = ["C15", "C02", "C14"]
+    if _re.match(r"vm\.op\.(gt|lt|gte|lte|eq|neq|cmp)(\.imm)?$", i):
+        u["props"] = ["C15", "C02", "C03"]
     units.append(u)
 def M(name, find, replace, expect, **k):
     d = {"name": name, "file": "vm.c", "find": find, "replace": replace, "expect": expect}; d.update(k); return d
